@@ -27,6 +27,7 @@ def run(ctx):
     r146(ctx)
     r147(ctx)
     r148(ctx)
+    r149(ctx)
     from . import c08
     c08.r85(ctx)
 
@@ -268,3 +269,30 @@ def r148(ctx, rule='R14.8'):
     ctx.ob(rule, 'util.analyse_paths:entries-normalised-before-splitting', ok, norm(st[0])[:100] if st else '', ut.loc(f))
     rt = [x for x in walk_no_nested(f) if isinstance(x, ast.Assign) and norm(x.targets[0]) == 'basepath' and 'root' in norm(x.value)]
     ctx.ob(rule, 'util.analyse_paths:root-normalised-the-same-way', len(rt) == 1 and "join_path(root).split('/')" in norm(rt[0].value), '', ut.loc(f))
+
+
+def r149(ctx, rule='R14.9'):
+    """(a) a path is taken for hive style as soon as it has one key=value level (plain levels above the dataset, e.g.
+    sub-dataset directories, are allowed): the refusal test is "no key=value level at all"; (b) the dataset directory
+    of a handle is its fn without a trailing `_metadata` - also when fn is exactly `_metadata` (empty base path): the
+    constant pattern is evaluated on both shapes"""
+    import re as _re
+    api = ctx.repo['api']
+    f = api.func('_path_to_cats')
+    ref = [x for x in walk_no_nested(f) if isinstance(x, ast.If) and any(isinstance(r, ast.Raise) and 'hive' in norm(r) for r in x.body)]
+    ctx.ob(rule, 'api._path_to_cats:not-hive-only-when-no-level-is-key=value', len(ref) == 1 and norm(ref[0].test) == 'not hivehits',
+           '`if %s: raise` - demanding that every level be key=value turns sub-datasets in plainly named directories into drill '
+           'datasets (the partition column is lost)' % (norm(ref[0].test) if ref else '?'), api.loc(ref[0]) if ref else api.loc(f))
+    g = api.func('ParquetFile.basepath')
+    subs = [c for c in ast.walk(g) if isinstance(c, ast.Call) and callee(c) == 're.sub' and c.args and isinstance(c.args[0], ast.Constant)]
+    ok = False
+    d = 're.sub with a constant pattern not found'
+    if len(subs) == 1:
+        pat = subs[0].args[0].value
+        try:
+            res = [_re.sub(pat, '', s).rstrip('/') for s in ('_metadata', 'a/b/_metadata', '/x/_metadata/', 'a/b.parquet')]
+            ok = res == ['', 'a/b', '/x', 'a/b.parquet']
+            d = 'pattern %r maps _metadata, a/b/_metadata, /x/_metadata/, a/b.parquet to %s' % (pat, res)
+        except _re.error as e:
+            d = 'pattern %r: %s' % (pat, e)
+    ctx.ob(rule, 'api.ParquetFile.basepath:strips-the-summary-file-name-also-from-a-bare-name', ok, d, api.loc(g))
